@@ -39,7 +39,9 @@ CLAIMS = {
              "trip, hypothesis); every scale of the generated info carries the requested encoding and, for "
              "compressed_segmentation, a block size, because the parameters are set before the first scale is "
              "copied (and a kernel-checked witness that the opposite order does not); compressed_segmentation "
-             "promotes 8/16-bit types to uint32 and nothing else; exit status 0 iff every step of the command "
+             "promotes 8/16-bit types to uint32 and nothing else; both programs select the same downscaler for "
+             "every method option, 'auto' being resolved after --type is applied (with a witness that the "
+             "opposite order differs); exit status 0 iff every step of the command "
              "succeeded, for every list of steps; re-running the same chunk writes leaves every chunk decoding "
              "to the same array (any history, any codec); compute-scales is idempotent and leaves level L+1 = "
              "downscale(level L) for every downscaler and number of levels. Voxel-level content of the steps "
